@@ -10,7 +10,7 @@ C on every run.  Theorems that are generic in the table take the site as a
 hypothesis; facts about the *current* table are proved by evaluation (`decide`)
 and are marked "table fact" — they are re-checked against each regenerated table.
 -/
-import LA.Lemmas.Handle
+import LA.Lemmas.HandleInv
 set_option linter.unusedSimpArgs false
 set_option linter.unusedVariables false
 namespace LA.C07
@@ -30,11 +30,6 @@ theorem exempt_writeDisk :
     exempt .writeDisk = ["_archive_write_disk_close", "_archive_write_disk_free"] := by decide
 theorem exempt_readDisk : exempt .readDisk = ["_archive_read_close", "_archive_read_free"] := by decide
 theorem exempt_match : exempt .«match» = ["archive_match_free"] := by decide
-
-/-- Table fact: over all kinds. -/
-theorem acceptFatal_eq : acceptFatal =
-    ["archive_match_free", "_archive_read_close", "_archive_read_free", "_archive_write_close",
-     "_archive_write_free", "_archive_write_disk_close", "_archive_write_disk_free"] := by decide
 
 /-! ## illegal_is_fatal -/
 
@@ -97,32 +92,32 @@ theorem illegal_is_fatal (h : Handle) (op : Op) (o : Outcome) (f : String) (s : 
   cases op with
   | rOpen w reg =>
     cases w with
-    | some w => simp [firstCheck] at hf; subst hf; simp [step, hb]; rw [hr _ _ rfl rfl]
+    | some w => simp [firstCheck] at hf; subst hf; simp [step, stepCore, hb]; rw [hr _ _ rfl rfl]
     | none =>
       cases reg with
-      | false => simp [firstCheck] at hf; subst hf; simp [step, hb]; rw [hr _ _ rfl rfl]
+      | false => simp [firstCheck] at hf; subst hf; simp [step, stepCore, hb]; rw [hr _ _ rfl rfl]
       | true =>
         simp [firstCheck] at hf; subst hf
         have hk : k = .read := by simpa [Op.belongs] using hb
         subst hk
         obtain ⟨t, ht, hta⟩ := open1_refuses_fatal
-        simp [step, hb]
+        simp [step, stepCore, hb]
         rw [hr _ _ rfl rfl]
         exact checked_refused (h := { kind := .read, st := .fatal, alive := true, regs := regs, hasReader := hasReader, filters := filters, client := client, ent := ent, fd := fd, fixups := fixups, tree := tree, topen := topen, bad := bad, lost := lost, nOpen := nOpen, nClose := nClose, nFree := nFree }) ht hta
   | close =>
     cases k <;> simp [firstCheck] at hf <;> subst hf <;>
-      simp [step, hb, rClose, wClose, dClose, kClose] <;> rw [hr _ _ rfl rfl]
+      simp [step, stepCore, hb, rClose, wClose, dClose, kClose] <;> rw [hr _ _ rfl rfl]
   | free =>
     cases k <;> simp [firstCheck] at hf <;> subst hf <;>
-      simp [step, hb, rFree, wFree, dFree, kFree] <;> rw [hr _ _ rfl rfl]
+      simp [step, stepCore, hb, rFree, wFree, dFree, kFree] <;> rw [hr _ _ rfl rfl]
   | wOpen w =>
-    cases w <;> simp [firstCheck] at hf <;> subst hf <;> simp [step, hb] <;> rw [hr _ _ rfl rfl]
+    cases w <;> simp [firstCheck] at hf <;> subst hf <;> simp [step, stepCore, hb] <;> rw [hr _ _ rfl rfl]
   | unchecked => simp [firstCheck] at hf
   | fail => simp [firstCheck] at hf
   | rReadData => simp [firstCheck] at hf
   | _ =>
     simp [firstCheck] at hf; subst hf
-    simp [step, hb, rDataSkip, wFinishEntry, dFinishEntry]
+    simp [step, stepCore, hb, rDataSkip, wFinishEntry, dFinishEntry]
     rw [hr _ _ rfl rfl]
 
 /-! ## fatal_absorbing -/
@@ -137,14 +132,6 @@ def refusedWhenFailed : Op → Bool
   | .lookup pre _ => !acceptFatal.contains pre
   | .rOpen (some w) _ | .wOpen (some w) => !acceptFatal.contains w
   | _ => true
-
-theorem lit_not_exempt (f : String)
-    (h : (["archive_match_free", "_archive_read_close", "_archive_read_free", "_archive_write_close",
-     "_archive_write_free", "_archive_write_disk_close", "_archive_write_disk_free"].contains f) = false) :
-    f ∉ acceptFatal := by
-  rw [acceptFatal_eq]; intro hm
-  have := List.contains_iff_mem.mpr hm
-  simp_all
 
 /-- **fatal_absorbing.**  On a failed handle every call other than the error
 accessors, `archive_write_fail`, close and free returns ARCHIVE_FATAL and leaves
@@ -173,66 +160,30 @@ theorem fatal_absorbing (h : Handle) (op : Op) (o : Outcome)
   | fail => simp [refusedWhenFailed] at hop
   | close => simp [refusedWhenFailed] at hop
   | free => simp [refusedWhenFailed] at hop
-  | plain f => simp [step, halive, hb]; exact key f _ (nc f hop)
-  | wSetFormat f => simp [step, halive, hb]; exact key f _ (nc f hop)
-  | wAddFilter f => simp [step, halive, hb]; exact key f _ (nc f hop)
-  | lookup pre st => simp [step, halive, hb]; exact key pre _ (nc pre hop)
+  | plain f => simp [step, stepCore, halive, hb]; exact key f _ (nc f hop)
+  | wSetFormat f => simp [step, stepCore, halive, hb]; exact key f _ (nc f hop)
+  | wAddFilter f => simp [step, stepCore, halive, hb]; exact key f _ (nc f hop)
+  | lookup pre st => simp [step, stepCore, halive, hb]; exact key pre _ (nc pre hop)
   | rOpen w reg =>
     cases w with
-    | some w => simp [step, halive, hb]; exact key w _ (nc w hop)
+    | some w => simp [step, stepCore, halive, hb]; exact key w _ (nc w hop)
     | none =>
       cases reg with
-      | false => simp [step, halive, hb]; exact lit _ _ (by decide)
+      | false => simp [step, stepCore, halive, hb]; exact lit _ _ (by decide)
       | true =>
         have h1 : (checked h "archive_read_set_read_callback"
             fun h => ({ h with hasReader := true }, Rc.ok)).1 = h := by
           rcases lit "archive_read_set_read_callback"
             (fun h => ({ h with hasReader := true }, Rc.ok)) (by decide) with e | e <;> rw [e]
-        simp [step, halive, hb, h1]; exact lit _ _ (by decide)
+        simp [step, stepCore, halive, hb, h1]; exact lit _ _ (by decide)
   | wOpen w =>
     cases w with
-    | some w => simp [step, halive, hb]; exact key w _ (nc w hop)
-    | none => simp [step, halive, hb]; exact lit _ _ (by decide)
-  | rReadData => simp [step, halive, hb, hst]; exact lit _ _ (by decide)
-  | _ => simp [step, halive, hb, rDataSkip, wFinishEntry, dFinishEntry]; exact lit _ _ (by decide)
+    | some w => simp [step, stepCore, halive, hb]; exact key w _ (nc w hop)
+    | none => simp [step, stepCore, halive, hb]; exact lit _ _ (by decide)
+  | rReadData => simp [step, stepCore, halive, hb, hst]; exact lit _ _ (by decide)
+  | _ => simp [step, stepCore, halive, hb, rDataSkip, wFinishEntry, dFinishEntry]; exact lit _ _ (by decide)
 
 /-! ## close_idempotent, free_from_any_state -/
-
-theorem rClose_fst (o : Outcome) (h : Handle) (hk : h.kind = .read) :
-    (rClose o h).1 = if h.st = .closed then h else rCloseFilters { h with st := .closed } := by
-  simp only [rClose, chk_read_archive_read_close h _ hk, allowed_65535]
-  by_cases hc : h.st = .closed <;> simp [hc]
-
-theorem wClose_fst (o : Outcome) (h : Handle) (hk : h.kind = .write) :
-    (wClose o h).1 =
-      if h.st = .new ∨ h.st = .closed then h
-      else if h.st = .fatal then wCloseFilters h
-      else { wCloseFilters (if h.st = .data then relEnt h else h) with st := .closed } := by
-  simp only [wClose, chk_write_archive_write_close h _ hk, allowed_65535]
-  cases hs : h.st <;> simp [hs, fatal_eta]
-
-theorem dClose_fst (o : Outcome) (h : Handle) (hk : h.kind = .writeDisk) :
-    (dClose o h).1 =
-      if h.st = .fatal then relFixups (relEnt (relFd h))
-      else if h.st = .header then relFixups h
-      else if h.st = .data then
-        (if o.alt = 2 then relFixups (relFd h) else relFixups { relEnt (relFd h) with st := .header })
-      else { h with st := .fatal } := by
-  simp only [dClose, dFinishEntry, chk_writeDisk_archive_write_disk_close h _ hk,
-    chk_writeDisk_archive_write_disk_finish_entry h _ hk]
-  cases hs : h.st <;> simp [hs]
-  split <;> simp
-
-theorem kClose_fst (h : Handle) (hk : h.kind = .readDisk) :
-    (kClose h).1 = kCloseTree (if h.st = .fatal then h else { h with st := .closed }) := by
-  simp only [kClose, chk_readDisk_archive_read_close h _ hk, allowed_65535]
-  cases hs : h.st <;> simp [hs]
-
-theorem step_close (h : Handle) (o : Outcome) (halive : h.alive = true) :
-    (step h .close o).1 = match h.kind with
-      | .read => (rClose o h).1 | .write => (wClose o h).1 | .writeDisk => (dClose o h).1
-      | .readDisk => (kClose h).1 | .«match» => h := by
-  cases hk : h.kind <;> simp [step, halive, hk, Op.belongs]
 
 /-- close twice = close once, as a statement about one handle and two outcomes. -/
 abbrev CloseIdem (h : Handle) (o1 o2 : Outcome) : Prop :=
@@ -342,11 +293,11 @@ kinds: the struct is gone afterwards (and the call was not refused). -/
 theorem free_from_any_state (h : Handle) (o : Outcome) (halive : h.alive = true) :
     (step h .free o).1.alive = false := by
   cases hk : h.kind with
-  | read => simp [step, halive, hk, Op.belongs, rFree, chk_read_archive_read_free h _ hk]
-  | write => simp [step, halive, hk, Op.belongs, wFree, chk_write_archive_write_free h _ hk]
-  | writeDisk => simp [step, halive, hk, Op.belongs, dFree, chk_writeDisk_archive_write_disk_free h _ hk]
-  | readDisk => simp [step, halive, hk, Op.belongs, kFree, chk_readDisk_archive_read_free h _ hk]
-  | «match» => simp [step, halive, hk, Op.belongs, chk_match_archive_match_free h _ hk]
+  | read => simp [step, stepCore, halive, hk, Op.belongs, rFree, chk_read_archive_read_free h _ hk]
+  | write => simp [step, stepCore, halive, hk, Op.belongs, wFree, chk_write_archive_write_free h _ hk]
+  | writeDisk => simp [step, stepCore, halive, hk, Op.belongs, dFree, chk_writeDisk_archive_write_disk_free h _ hk]
+  | readDisk => simp [step, stepCore, halive, hk, Op.belongs, kFree, chk_readDisk_archive_read_free h _ hk]
+  | «match» => simp [step, stepCore, halive, hk, Op.belongs, chk_match_archive_match_free h _ hk]
 
 /-- **close_accepted.**  `close` is not refused in any state a handle can be in
 (every state for readers, writers and disk readers; HEADER/DATA/FATAL for the
@@ -377,142 +328,6 @@ example : (step (new .writeDisk) .free {}).1.alive = false := by decide
 
 /-! ## no_entry_after_eof_or_fatal (reader) -/
 
-/-- The reader is past its last entry: EOF was reached, the handle was closed, or it failed. -/
-def Ended (h : Handle) : Prop := h.st = .eof ∨ h.st = .closed ∨ h.st = .fatal
-
-theorem ended_checked (h : Handle) (f : String) (body : Handle → Handle × Rc)
-    (he : Ended h) (hb : Ended (body h).1) : Ended (checked h f body).1 := by
-  unfold checked
-  split
-  · exact he
-  · split
-    · exact hb
-    · exact Or.inr (Or.inr rfl)
-
-/-- Once ended, always ended: no call of the reader's API leads back to HEADER
-or DATA (`archive_read_open1` needs NEW, `archive_read_data_skip` needs DATA). -/
-theorem ended_step (h : Handle) (hk : h.kind = .read) (he : Ended h) (op : Op) (o : Outcome) :
-    Ended (step h op o).1 := by
-  by_cases halive : h.alive = true
-  case neg => simp [step, halive]; exact he
-  by_cases hb : op.belongs h.kind = true
-  case neg => simp [step, halive, hb]; exact he
-  have hnew : (h.st == St.new) = false := by rcases he with e | e | e <;> simp [e]
-  have hdata : (h.st == St.data) = false := by rcases he with e | e | e <;> simp [e]
-  have hhd : (h.st == St.header || h.st == St.data) = false := by rcases he with e | e | e <;> simp [e]
-  have fat : ∀ g : Handle, Ended { g with st := St.fatal } := fun g => Or.inr (Or.inr rfl)
-  rw [hk] at hb
-  cases op with
-  | plain f =>
-    simp only [step, halive, hk, hb]; simp only [Bool.not_true, Bool.false_eq_true, if_false]
-    apply ended_checked _ _ _ he
-    split
-    · exact fat h
-    · exact he
-  | unchecked => simp [step, halive, hk, hb]; exact he
-  | fail => simp [step, halive, hk, hb]; exact fat h
-  | rSetReader =>
-    simp only [step, halive, hk, hb]; simp only [Bool.not_true, Bool.false_eq_true, if_false]
-    exact ended_checked _ _ _ he he
-  | rOpen w reg =>
-    have inner : ∀ g : Handle, g.kind = .read → Ended g →
-        Ended (checked g "archive_read_open1" (rOpen1Body o)).1 := by
-      intro g gk ge
-      have : (g.st == St.new) = false := by rcases ge with e | e | e <;> simp [e]
-      rw [chk_read_archive_read_open1 g _ gk]; simp [this]; exact fat g
-    have go : ∀ g : Handle, g.kind = .read → Ended g →
-        Ended (checked (if reg = true then
-          (checked g "archive_read_set_read_callback" fun h => ({ h with hasReader := true }, Rc.ok)).1
-          else g) "archive_read_open1" (rOpen1Body o)).1 := by
-      intro g gk ge
-      cases reg with
-      | false => simpa using inner g gk ge
-      | true =>
-        simp only [if_true]
-        apply inner
-        · rw [chk_read_archive_read_set_read_callback g _ gk]; split <;> simpa using gk
-        · exact ended_checked _ _ _ ge ge
-    cases w with
-    | none => simp only [step, halive, hk, hb]; simp only [Bool.not_true, Bool.false_eq_true, if_false]; exact go h hk he
-    | some w =>
-      simp only [step, halive, hk, hb]; simp only [Bool.not_true, Bool.false_eq_true, if_false]
-      exact ended_checked _ _ _ he (go h hk he)
-  | rNextHeader =>
-    simp [step, halive, hk, hb, chk_read_archive_read_next_header2 h _ hk, hhd]; exact fat h
-  | rReadData =>
-    simp only [step, halive, hk, hb, hdata]; simp only [Bool.not_true, Bool.false_eq_true, if_false, Bool.and_false]
-    exact ended_checked _ _ _ he he
-  | rReadDataBlock =>
-    simp only [step, halive, hk, hb]; simp only [Bool.not_true, Bool.false_eq_true, if_false]
-    exact ended_checked _ _ _ he he
-  | rSeekData =>
-    simp only [step, halive, hk, hb]; simp only [Bool.not_true, Bool.false_eq_true, if_false]
-    exact ended_checked _ _ _ he he
-  | rDataSkip =>
-    simp [step, halive, hk, hb, rDataSkip, chk_read_archive_read_data_skip h _ hk, hdata]; exact fat h
-  | close =>
-    have := step_close h o halive
-    rw [hk] at this; simp only at this
-    rw [this, rClose_fst o h hk]
-    by_cases hc : h.st = .closed
-    · simp [hc]; exact he
-    · simp only [hc, if_false]; unfold Ended; simp
-  | free =>
-    simp only [step, halive, hk, hb]; simp only [Bool.not_true, Bool.false_eq_true, if_false]
-    simp only [rFree, chk_read_archive_read_free h _ hk, allowed_65535, if_true]
-    unfold Ended
-    simp only [relHandle_st, rFreeFilters_st, relRegs_st]
-    by_cases hc : (h.st != St.closed && h.st != St.fatal) = true
-    · simp only [hc, if_true]; rw [rClose_fst o h hk]
-      have : ¬ h.st = .closed := by intro e; simp [e] at hc
-      simp [this]
-    · simp only [hc]; exact he
-  | _ => simp [Op.belongs] at hb
-
-/-- `archive_read_next_header` returning EOF or FATAL leaves the reader ended,
-whatever the format's `read_header` and the skip of the previous body returned. -/
-theorem next_header_ends (h : Handle) (hk : h.kind = .read) (halive : h.alive = true) (o : Outcome)
-    (hr : (step h .rNextHeader o).2 = .eof ∨ (step h .rNextHeader o).2 = .fatal) :
-    Ended (step h .rNextHeader o).1 := by
-  have hb : Op.rNextHeader.belongs .read = true := rfl
-  simp only [step, halive, hk, hb] at hr ⊢
-  simp only [Bool.not_true, Bool.false_eq_true, if_false] at hr ⊢
-  rw [chk_read_archive_read_next_header2 h _ hk] at hr ⊢
-  unfold Ended
-  cases hs : h.st <;> simp [hs] at hr ⊢
-  · -- HEADER: no body to skip
-    simp [rNextHeaderBody, hs] at hr ⊢
-    cases hrc : o.rc <;> simp [hrc, Rc.val] at hr ⊢
-  · -- DATA: the rest of the body is skipped first
-    simp [rNextHeaderBody, hs, rDataSkip, chk_read_archive_read_data_skip h _ hk] at hr ⊢
-    cases hr2 : o.rc2 <;> cases hrc : o.rc <;> simp [hr2, hrc, Rc.val] at hr ⊢
-
-/-- Did some `next_header` of the history return an entry (OK or WARN)? -/
-def yields : List (Op × Outcome) → List Rc → Bool
-  | (op, _) :: ops, r :: rs => (op == .rNextHeader && (r == .ok || r == .warn)) || yields ops rs
-  | _, _ => false
-
-theorem ended_never_yields (rest : List (Op × Outcome)) :
-    ∀ h : Handle, h.kind = .read → Ended h → yields rest (run h rest).2 = false := by
-  induction rest with
-  | nil => intro h _ _; rfl
-  | cons p rest ih =>
-    intro h hk he
-    obtain ⟨op, o⟩ := p
-    have hk' : (step h op o).1.kind = .read := by
-      have := step_kind h op o
-      rw [this]; exact hk
-    have he' := ended_step h hk he op o
-    simp only [run, yields]
-    rw [ih _ hk' he']
-    simp only [Bool.or_false, Bool.and_eq_false_imp, beq_iff_eq]
-    intro hop; subst hop
-    by_cases halive : h.alive = true
-    · have hhd : (h.st == St.header || h.st == St.data) = false := by
-        rcases he with e | e | e <;> simp [e]
-      simp [step, halive, hk, Op.belongs, chk_read_archive_read_next_header2 h _ hk, hhd]
-    · simp [step, halive]
-
 /-- **no_entry_after_eof_or_fatal.**  Once `archive_read_next_header` has
 returned ARCHIVE_EOF or ARCHIVE_FATAL, no later `next_header` on that reader
 returns an entry (OK or WARN) — for every continuation of calls (including
@@ -531,5 +346,58 @@ theorem no_entry_after_failure (h : Handle) (hk : h.kind = .read) (hf : h.st = .
 example : let h := (run (new .read) [(.plain "archive_read_support_format_all", {}),
       (.rOpen none true, {}), (.rNextHeader, {})]).1
     (step h .rNextHeader { rc := .eof }).2 = .eof ∧ h.st = .data := by decide
+
+/-! ## released_exactly_once -/
+
+/-- Full strength: after `free`, whatever came before, nothing is left, nothing
+was released twice, nothing was dropped. -/
+def ReleasedExactlyOnce : Prop :=
+  ∀ (k : Kind) (hist : List (Op × Outcome)) (o : Outcome), Clean (step (run (new k) hist).1 .free o).1
+
+/-- The full statement is false: a writer whose format allocated a per-entry
+compressor in `write_header` (zip: one deflate stream per regular file) and that
+is failed before `finish_entry` ran never releases it — `close` skips
+`finish_entry` in the FATAL state and the format's `free` does not know about it.
+Witness: set_format, open, write_header (compressor allocated), fail, free. -/
+theorem releasedExactlyOnce_false : ¬ ReleasedExactlyOnce := by
+  intro hr
+  have := hr .write [(.wSetFormat "archive_write_set_format_zip", {}), (.wOpen none, { n := 1 }),
+    (.wHeader, { flag := true }), (.fail, {})] {}
+  revert this
+  decide
+
+/-- **released_exactly_once** (`_partial`: excludes formats with a per-entry
+compressor, see `releasedExactlyOnce_false`).  For every handle kind and every
+history of calls — any order, repeated, after errors, with any lower-layer
+outcomes, including earlier frees — `free` leaves the ledger empty (handle,
+registered blocks, filter objects and their open state, the client's stream or
+data, the entry clone and descriptor, the fix-up list, the directory tree and
+its handles), and no resource was released twice or dropped along the way. -/
+theorem released_exactly_once_partial (k : Kind) (hist : List (Op × Outcome)) (o : Outcome)
+    (hn : NoEntryCompressor hist) : Clean (step (run (new k) hist).1 .free o).1 := by
+  rcases good_run hist (new k) (Or.inl (inv_new k)) hn with hi | hc
+  · exact free_clean _ o hi
+  · rw [clean_dead _ hc]; exact hc
+
+/-- Nothing is released twice or dropped at any point of any history (not only at the end). -/
+theorem never_double_release (k : Kind) (hist : List (Op × Outcome)) (hn : NoEntryCompressor hist) :
+    (run (new k) hist).1.bad = 0 ∧ (run (new k) hist).1.lost = 0 := by
+  rcases good_run hist (new k) (Or.inl (inv_new k)) hn with hi | hc
+  · exact ⟨hi.2.1, hi.2.2.1⟩
+  · exact ⟨hc.2.1, hc.2.2⟩
+
+/-- The disk writer is only ever in HEADER, DATA or FATAL (used by `close_idempotent_partial`). -/
+theorem wdisk_states (hist : List (Op × Outcome)) (hn : NoEntryCompressor hist)
+    (ha : (run (new .writeDisk) hist).1.alive = true) : DiskState (run (new .writeDisk) hist).1 := by
+  intro hk
+  rcases good_run hist (new .writeDisk) (Or.inl (inv_new _)) hn with hi | hc
+  · exact ((inv_writeDisk _ hk).mp hi).2.2.2.2.2.2.2.1
+  · have := ((clean_iff _).mp hc).1; rw [ha] at this; cases this
+
+example : NoEntryCompressor [(.dHeader, { flag := true, n := 2 }), (.fail, {})] := by
+  intro p hp; simp at hp; rcases hp with rfl | rfl <;> simp
+
+example : Clean (step (run (new .writeDisk) [(.dHeader, { flag := true, n := 2 }), (.fail, {})]).1 .free {}).1 := by
+  decide
 
 end LA.C07
